@@ -122,6 +122,16 @@ type isoShape struct {
 	yaml   string
 	root   string
 	fresh  map[string]string // format -> hash of the package built from a fresh parse
+	// values only a library caller can put into a configuration (the parser would tidy them away), set after every parse
+	post func(c *nfpm.Config)
+}
+
+func (s *isoShape) parse() (nfpm.Config, error) {
+	cfg, err := parseCfg(s.yaml)
+	if err == nil && s.post != nil {
+		s.post(&cfg)
+	}
+	return cfg, err
 }
 
 // isoShapes builds configurations that exercise every kind of shared object.
@@ -143,6 +153,50 @@ func isoShapes(scratch string, rng *rand.Rand, n int) []*isoShape {
 	}
 	withFi := Fi{Owner: "app", Group: "app"}
 	mk("plain", func(c *Cfg, n *[]Node) {}, "")
+	// relation lists as a program hands them over: blank items in the middle (a template that evaluated to nothing), spare
+	// capacity - a packager that tidies them for its control file tidies a copy
+	mk("library-relations", func(c *Cfg, n *[]Node) {
+		c.Depends, c.Provides = []string{"a", "b >= 1"}, []string{"p1", "p2"}
+	}, "")
+	out[len(out)-1].post = func(c *nfpm.Config) {
+		withBlanks := func(items ...string) []string { return append(make([]string, 0, len(items)+4), items...) }
+		c.Provides = withBlanks("p1", " ", "p2", "p3", "", "p4")
+		c.Depends = withBlanks("a", "", "b >= 1", "   ", "c")
+		c.Replaces = withBlanks("", "r1", "r2")
+		c.Conflicts = withBlanks("c1", "\t", "c2")
+		c.Recommends = withBlanks("rec1", " ", "rec2")
+		c.Suggests = withBlanks("s1", "", "s2")
+		c.Deb.Predepends = withBlanks("pd", " ", "a")
+		c.Deb.Breaks = withBlanks("", "br")
+		c.IPK.Predepends = withBlanks("ipd", "")
+	}
+	// declared directories at paths the distribution's filesystem package owns, with attributes of their own; relations that
+	// carry a multiarch qualifier; licence / readme / doc entries (each packager has its own idea about these: none of
+	// them may write it into the configuration)
+	mk("declared-dirs-at-system-paths", func(c *Cfg, n *[]Node) {
+		c.Entries = append(c.Entries,
+			Entry{Type: "dir", Dst: "/srv", Fi: Fi{Owner: "app", Group: "app", Mode: 0o750}, HasFi: true},
+			Entry{Type: "dir", Dst: "/var/cache", Fi: Fi{Owner: "app", Group: "app", Mode: 0o770}, HasFi: true},
+			Entry{Type: "dir", Dst: "/etc/sysconfig", Fi: Fi{Mode: 0o700}, HasFi: true},
+			Entry{Type: "dir", Dst: "/opt", Fi: withFi, HasFi: true},
+			Entry{Type: "file", Src: "src/app.conf", Dst: "/srv/isopkg/app.conf"},
+			Entry{Type: "dir", Dst: "/usr/share/icons"})
+	}, "")
+	mk("qualified-relations", func(c *Cfg, n *[]Node) {
+		c.Depends = []string{"python3:any (>= 3.8)", "libc6:native", "plain"}
+		c.Recommends, c.Suggests = []string{"perl:any"}, []string{"make:native (>= 4)"}
+		c.Conflicts, c.Replaces, c.Provides = []string{"old:any"}, []string{"older:any (<< 2)"}, []string{"virt:any"}
+		c.DebPredepends, c.IpkPredepends, c.IpkTags = []string{"dpkg:native (>= 1.17)"}, []string{"opkg:any"}, []string{"tag:any"}
+	}, "")
+	mk("licence-and-doc-entries", func(c *Cfg, n *[]Node) {
+		c.Entries = append(c.Entries,
+			Entry{Type: "license", Src: "src/sub/data.txt", Dst: "/usr/share/licenses/isopkg/LICENSE"},
+			Entry{Type: "licence", Src: "src/app.conf", Dst: "/usr/share/isopkg/COPYING", Fi: withFi, HasFi: true},
+			Entry{Type: "readme", Src: "src/extra.conf", Dst: "/usr/share/doc/isopkg/README"},
+			Entry{Type: "doc", Src: "src/sub/data.txt", Dst: "/usr/share/doc/isopkg/data.txt"},
+			Entry{Type: "license", Src: "src/sub/data.txt", Dst: "/usr/share/licenses/isopkg/LICENSE.arch", Tag: "archlinux"},
+			Entry{Type: "ghost", Dst: "/var/log/isopkg.log"})
+	}, "")
 	mk("fileinfo-all-types", func(c *Cfg, n *[]Node) {
 		c.Entries = append(c.Entries,
 			Entry{Type: "dir", Dst: "/var/lib/isopkg", Fi: withFi, HasFi: true},
@@ -271,8 +325,8 @@ func isoShapes(scratch string, rng *rand.Rand, n int) []*isoShape {
 	return out
 }
 
-func freshPackage(yaml, f string) (string, string) {
-	cfg, err := parseCfg(yaml)
+func freshPackage(s *isoShape, f string) (string, string) {
+	cfg, err := s.parse()
 	if err != nil {
 		return "", "parse: " + err.Error()
 	}
@@ -372,7 +426,7 @@ func permutations(xs []string) [][]string {
 func famIso(tr *Trace, scratch string, seed int64, tier string, workers int, behaviours string) M {
 	os.Unsetenv("SOURCE_DATE_EPOCH")
 	rng := rand.New(rand.NewSource(seed + 99))
-	nshapes := 21
+	nshapes := 25
 	maxLen := 2
 	if tier == "thorough" {
 		nshapes, maxLen = 40, 3
@@ -381,7 +435,7 @@ func famIso(tr *Trace, scratch string, seed int64, tier string, workers int, beh
 	for _, s := range shapes {
 		s.fresh = map[string]string{}
 		for _, f := range allFormats {
-			h, e := freshPackage(s.yaml, f)
+			h, e := freshPackage(s, f)
 			if e != "" {
 				h = "err"
 			}
@@ -446,7 +500,7 @@ func famIso(tr *Trace, scratch string, seed int64, tier string, workers int, beh
 	}
 	parallel(len(jobs), workers, func(i int) {
 		j := jobs[i]
-		cfg, err := parseCfg(j.s.yaml)
+		cfg, err := j.s.parse()
 		names := make([]any, 0)
 		for _, o := range j.h {
 			names = append(names, o.String())
@@ -547,9 +601,9 @@ func famIso(tr *Trace, scratch string, seed int64, tier string, workers int, beh
 func famConc(tr *Trace, scratch string, seed int64, tier string) M {
 	os.Unsetenv("SOURCE_DATE_EPOCH")
 	rng := rand.New(rand.NewSource(seed + 7))
-	nshapes, iters := 20, 12
+	nshapes, iters := 24, 12
 	if tier == "thorough" {
-		nshapes, iters = 20, 40
+		nshapes, iters = 24, 40
 	}
 	isoWithSigned = true
 	shapes := isoShapes(scratch, rng, nshapes)
@@ -589,7 +643,7 @@ func famConc(tr *Trace, scratch string, seed int64, tier string) M {
 						var shared nfpm.Config
 						if mode == "shared-config" {
 							var err error
-							shared, err = parseCfg(s.yaml)
+							shared, err = s.parse()
 							if err != nil {
 								continue
 							}
@@ -621,7 +675,7 @@ func famConc(tr *Trace, scratch string, seed int64, tier string) M {
 								}()
 								cfgp := &shared
 								if mode != "shared-config" {
-									c2, err := parseCfg(s.yaml)
+									c2, err := s.parse()
 									if err != nil {
 										res[gi] = "err"
 										return
@@ -660,7 +714,7 @@ func famConc(tr *Trace, scratch string, seed int64, tier string) M {
 	for _, s := range shapes {
 		seq := map[string]string{}
 		for _, f := range allFormats {
-			h, e := freshPackage(s.yaml, f)
+			h, e := freshPackage(s, f)
 			if e != "" {
 				h = "err"
 			}
